@@ -111,6 +111,20 @@ __CPROVER_ensures(g_shrink_arg >= (__CPROVER_old(split->st.st_size) & ~((data_of
 __CPROVER_ensures(g_grow_failed || g_shrink_arg == size)
 __CPROVER_assigns(g_shrink_arg, g_grow_failed, g_last_grow);
 
+/* ghost: what parity_chsize asked each split to become (recorded by the contract that replaces the callee) */
+static data_off_t g_req[SPLIT_MAX];
+static unsigned g_req_calls;
+static struct snapraid_parity_handle PH;
+
+static int parity_handle_chsize(struct snapraid_split_handle *split, data_off_t size, uint32_t block_size, int skip_fallocate, int skip_space_holder)
+__CPROVER_requires(size >= 0 && block_size >= 1)
+__CPROVER_requires(split >= &PH.split_map[0] && split <= &PH.split_map[SPLIT_MAX - 1])
+__CPROVER_ensures(__CPROVER_return_value == 0 || __CPROVER_return_value == -1)
+/* what the OS + parity_handle_fill/shrink contracts give: a block aligned, non negative size (possibly less than asked) */
+__CPROVER_ensures(__CPROVER_return_value != 0 || (split->st.st_size >= 0 && (split->st.st_size & ((data_off_t)block_size - 1)) == 0))
+__CPROVER_ensures(g_req[split - &PH.split_map[0]] == size && g_req_calls == __CPROVER_old(g_req_calls) + 1)
+__CPROVER_assigns(split->st.st_size, split->valid_size, g_req_calls, g_req[split - &PH.split_map[0]]);
+
 #ifdef VERIF_CBMC
 /* external functions by assumed contract */
 void log_tag(const char *format, ...) { (void)format; }
@@ -172,10 +186,9 @@ struct verif_in {
 	uint64_t v;
 	data_off_t st_size, want;
 	data_off_t valid[SPLIT_MAX];
+	data_off_t psize[SPLIT_MAX];
 };
 VERIF_DECLARE_IN
-
-static struct snapraid_parity_handle PH;
 
 static void setup_handle(void)
 {
@@ -257,6 +270,61 @@ void h_fill(void)
 	g_grow_failed = 0;
 	r = parity_handle_fill(&sp, IN.want, IN.block_size, 0, 0);
 	(void)r;
+	VERIF_CANARY();
+}
+
+/*
+ * parity_chsize: on success the split sizes add up to the request, every size is block aligned, a split that is
+ * followed by a split in use is never asked to grow ("only the last used split grows"), the sizes are copied to the
+ * parity description and is_modified is exact.
+ */
+void h_chsize(void)
+{
+	static struct snapraid_parity P;
+	data_off_t old[SPLIT_MAX], oldp[SPLIT_MAX], sum, remaining, mask;
+	int is_modified = 7, r, expect_mod = 0;
+	unsigned s;
+	VERIF_INPUTS();
+	setup_handle();
+	VERIF_ASSUME(IN.block_size >= 1 && (IN.block_size & (IN.block_size - 1)) == 0);
+	mask = (data_off_t)IN.block_size - 1;
+	VERIF_ASSUME(IN.want >= 0 && IN.want <= ((data_off_t)1 << 56) && (IN.want & mask) == 0);
+	VERIF_ASSUME(IN.split_mac >= 1);
+	for (s = 0; s < SPLIT_MAX; ++s) {
+		old[s] = PH.split_map[s].size;
+		PH.split_map[s].st.st_size = IN.valid[s]; /* whatever the file size is now */
+		oldp[s] = P.split_map[s].size = IN.psize[s];
+		g_req[s] = -1;
+		if (s < PH.split_mac)
+			VERIF_ASSUME((old[s] & mask) == 0);
+	}
+	g_req_calls = 0;
+#ifdef VERIF_NATIVE
+	exit(77); /* parity_handle_chsize is replaced by its contract under cbmc only */
+#endif
+	r = parity_chsize(&PH, &P, &is_modified, IN.want, IN.block_size, 0, 0);
+	if (r == 0) {
+		sum = 0;
+		remaining = IN.want;
+		for (s = 0; s < SPLIT_MAX; ++s)
+			if (s < PH.split_mac) {
+				int next_in_use = s + 1 < PH.split_mac && old[s + 1] != 0;
+				if (next_in_use && remaining > old[s])
+					VERIF_ASSERT(g_req[s] == old[s], "parity_chsize never asks a split that is followed by a used split to grow");
+				VERIF_ASSERT(g_req[s] <= remaining && g_req[s] >= 0, "parity_chsize never asks a split for more than what remains");
+				VERIF_ASSERT((PH.split_map[s].size & mask) == 0 && PH.split_map[s].size >= 0, "parity_chsize leaves every split block aligned");
+				VERIF_ASSERT(PH.split_map[s].size <= g_req[s], "parity_chsize never records more than it asked for");
+				VERIF_ASSERT(P.split_map[s].size == PH.split_map[s].size, "parity_chsize copies the sizes to the parity description");
+				expect_mod |= oldp[s] != PH.split_map[s].size;
+				sum += PH.split_map[s].size;
+				remaining -= PH.split_map[s].size;
+			} else {
+				VERIF_ASSERT(PH.split_map[s].size == old[s] && g_req[s] == -1, "parity_chsize does not touch unconfigured splits");
+			}
+		VERIF_ASSERT(sum == IN.want, "parity_chsize: the split sizes add up to the requested size");
+		VERIF_ASSERT(is_modified == expect_mod, "parity_chsize reports is_modified exactly");
+		VERIF_ASSERT(g_req_calls == PH.split_mac, "parity_chsize resizes every configured split once");
+	}
 	VERIF_CANARY();
 }
 
